@@ -17,7 +17,7 @@ RULE = (
     "distinct_nontrivial = distinct (model cell, relation, quantity family) tuples where the perturbation really changed another "
     "individual's own terms (B) / the permutation was not the identity (D)"
 )
-REQUIRED = {"rel_B_terms": 60, "rel_B_sampler": 60, "rel_B_personalize": 40, "rel_C_terms": 40, "rel_D_terms": 40, "totals": 40, "rel_E": 3,
+REQUIRED = {"competing_event_cohorts": 2, "rel_B_terms": 60, "rel_B_sampler": 60, "rel_B_personalize": 40, "rel_C_terms": 40, "rel_D_terms": 40, "totals": 40, "rel_E": 3,
             "others_terms_really_changed": 30, "cohorts_with_unsorted_ids": 8, "other_individual_with_absurd_value": 5, "rel_B_reused_algorithm_object": 5}
 ASSUMPTIONS = [
     "B relations: bit-identity (two executions of the same code on the same shapes); C/D: 1e-6 relative + 1e-6 x largest per-individual term "
@@ -28,7 +28,7 @@ ASSUMPTIONS = [
 ]
 GRID = [("logistic", 2, 0, "gaussian-diagonal"), ("logistic", 3, 1, "gaussian-scalar"), ("logistic", 3, 2, "gaussian-diagonal"), ("linear", 2, 1, "gaussian-diagonal"),
         ("shared_speed_logistic", 3, 1, None), ("joint", 3, 1, None), ("logistic", 2, 1, "bernoulli"), ("mixture_logistic", 3, 2, None), ("joint", 1, 0, None),
-        ("logistic", 1, 0, "gaussian-scalar")]
+        ("logistic", 1, 0, "gaussian-scalar"), ("joint", 2, 1, "events2")]
 
 
 def shards(tier, seed):
@@ -62,13 +62,16 @@ def run_shard(spec, ctx):
         kind, dim, src, noise = g
         events = kind == "joint"
         binary = noise == "bernoulli"
+        nb_ev = 1
+        if noise == "events2":  # two competing events
+            nb_ev, noise = 2, None
         try:
-            df = gen.cohort(rng, n_ind=int(rng.integers(3, 12)), n_feat=dim, missing="mcar", events=events, one_visit_ok=not events, binary=binary,
-                            id_style="str" if (events or i % 2) else "shuffled")
+            df = gen.cohort(rng, n_ind=int(rng.integers(3, 12)) if nb_ev == 1 else int(rng.integers(6, 14)), n_feat=dim, missing="mcar", events=events,
+                            one_visit_ok=not events, binary=binary, id_style="str" if (events or i % 2) else "shuffled", **({} if nb_ev == 1 else {"nb_events": nb_ev}))
             if not events and i % 2 == 0:
                 ctx.count("cohorts_with_unsorted_ids")
-            ds = gen.to_dataset(df, events=events)
-            kw = {"n_clusters": 2} if kind == "mixture_logistic" else {}
+            ds = gen.to_dataset(df, events=events, nb_events=nb_ev)
+            kw = {"n_clusters": 2} if kind == "mixture_logistic" else ({"nb_events": nb_ev} if nb_ev != 1 else {})
             model = gen.make_model(kind, dim, src, noise, **kw) if noise else gen.make_model(kind, dim, src, **kw)
             model.initialize(ds)
         except Exception:
@@ -96,7 +99,37 @@ def run_shard(spec, ctx):
             vals[rows_o[j], cols_o[j]] = 1e20
             ctx.count("other_individual_with_absurd_value")
         dfB.loc[other, feats] = vals
-        censor_others = events
+        censor_others = events and nb_ev == 1
+        if events and nb_ev != 1:
+            # competing events: the others keep their events in cohort B (every kind of event stays present).  Separately: the cohort in which the
+            # others are censored, read with the announced number of events - refused by the reader when a kind of event is then absent
+            # (documented), and when it is accepted the target's ingested event data must be what they are in cohort A
+            ctx.count("competing_event_cohorts")
+            from leaspy.io.data import Data as _Data2, Dataset as _Dataset2
+
+            ev_of = df.groupby("ID", sort=False)["EVENT_BOOL"].first()
+            cands = [target] + [x for x in ids if x != target and int(ev_of[x]) == 1][:3]  # an individual with the first kind of event: the last kind goes absent
+            for tg in cands:
+                dfB2 = dfB.copy()
+                dfB2.loc[dfB2["ID"] != tg, "EVENT_BOOL"] = 0
+                try:
+                    dsB2 = _Dataset2(_Data2.from_dataframe(dfB2, data_type="joint", factory_kws={"nb_events": nb_ev}))
+                except Exception:
+                    ctx.count("competing_event_cohorts_with_an_absent_kind_refused_by_the_reader")
+                    continue
+                ctx.count("competing_event_cohorts_with_the_others_censored_accepted")
+                rA, rB = list(ds.indices).index(tg), list(dsB2.indices).index(tg)
+                bad_attr = None
+                for attr in ("event_time", "event_bool"):
+                    a_, b_ = getattr(ds, attr)[rA], getattr(dsB2, attr)[rB]
+                    if a_.shape != b_.shape or not torch.equal(a_, b_):
+                        bad_attr = (attr, a_.tolist(), b_.tolist())
+                        break
+                if bad_attr:
+                    ctx.violation("indep/ingested-event-data-of-an-individual-depend-on-the-others",
+                                  f"{bad_attr[0]} of individual {tg} as ingested: {bad_attr[1]} in the cohort, {bad_attr[2]} when the other individuals' events are censored",
+                                  {"index": i, "grid": list(g), "target": tg})
+                    break
         if censor_others:
             # the other individuals' events become censored (the target's own event data are untouched): possibly nobody is left with an observed event
             dfB.loc[other, "EVENT_BOOL"] = False
@@ -108,13 +141,13 @@ def run_shard(spec, ctx):
             perm = perm[::-1]
         dfD = pd.concat([df[df["ID"] == ids[p]] for p in perm], ignore_index=True)
         try:
-            dsD = gen.to_dataset(dfD, events=events)
+            dsD = gen.to_dataset(dfD, events=events, nb_events=nb_ev)
             if censor_others:
                 from leaspy.io.data import Data as _Data, Dataset as _Dataset
 
                 dsB = _Dataset(_Data.from_dataframe(dfB, data_type="joint", factory_kws={"nb_events": 1}))
             else:
-                dsB = gen.to_dataset(dfB, events=events)
+                dsB = gen.to_dataset(dfB, events=events, nb_events=nb_ev)
             dsC = None if events else gen.to_dataset(dfC)  # a single-event cohort is refused by the joint reader
         except Exception as e:
             ctx.count("setup_skipped")
